@@ -1,6 +1,7 @@
 package rules
 
 import (
+	"os"
 	"fmt"
 	"go/token"
 	"go/types"
@@ -115,6 +116,7 @@ func c17r1(c *core.Ctx) {
 }
 
 func c17r2(c *core.Ctx) {
+	tlv8WriterItems(c)
 	p := c.P
 	for _, spec := range []struct {
 		writer, reader, kind string
@@ -288,6 +290,13 @@ func indexOfByteLoad(v ssa.Value) (int64, bool) {
 }
 
 func c17r3(c *core.Ctx) {
+	for _, f := range libFuncs(c.P) {
+		if pkgPathOf(f) == mod+"/tlv8" && f.Parent() == nil && f.Blocks != nil {
+			// decode's list loop drops the error of a malformed list element (it ends the list instead): unchanged-tree behaviour that
+			// C17 does not speak about, so only inverted tests are reported there
+			errorTestPolarity(c, f, nil, cn(f) == "decode" || cn(f) == "decodeSlice")
+		}
+	}
 	p := c.P
 	// buckets are non-empty by construction
 	rd := p.Func("tlv8", "read")
@@ -406,6 +415,41 @@ func c17r3(c *core.Ctx) {
 				bad++
 			}
 		})
+		// ... and no guard asks for more than the width: an item of exactly that width must be decoded at that width
+		strict := false
+		core.Instrs(f, func(i ssa.Instruction) {
+			bo, ok := i.(*ssa.BinOp)
+			if !ok || (bo.Op != token.LSS && bo.Op != token.GEQ && bo.Op != token.LEQ && bo.Op != token.GTR) {
+				return
+			}
+			n, isK := core.ConstInt(bo.Y)
+			if !isK {
+				return
+			}
+			call, isC := core.StripConv(bo.X).(*ssa.Call)
+			if !isC {
+				return
+			}
+			isTagLen := false
+			if g := call.Call.StaticCallee(); g != nil && cn(g) == "len" && core.TypeIs(recvType(g), mod+"/tlv8.reader") {
+				isTagLen = true
+			}
+			if bi, ok := call.Call.Value.(*ssa.Builtin); ok && bi.Name() == "len" {
+				isTagLen = true
+			}
+			if !isTagLen {
+				return
+			}
+			limit := n
+			if bo.Op == token.LEQ || bo.Op == token.GTR {
+				limit = n + 1
+			}
+			if limit > spec.need {
+				strict = true
+			}
+		})
+		c.Check(!strict, "guard-not-stricter-than-width:"+spec.name, f.Pos(), fmt.Sprintf("no length guard asks for more than %d bytes", spec.need),
+			fmt.Sprintf("a length guard of %s asks for more than the %d bytes the value has on the wire: values of exactly that width are decoded with a narrower reader and come back truncated", spec.name, spec.need))
 		c.Check(bad == 0 && sites > 0, "guarded-read:"+spec.name, f.Pos(), fmt.Sprintf("%d fixed-width access(es), each dominated by a length guard >= %d", sites, spec.need),
 			fmt.Sprintf("%s reads %d bytes of an item without a dominating length guard: a shorter item from the peer panics (index out of range)", spec.name, spec.need))
 	}
@@ -483,6 +527,19 @@ func c17r4(c *core.Ctx) {
 			}
 		})
 		for _, flag := range flags {
+			// only the variable that decides how a value is filed
+			decides := false
+			core.Instrs(rd, func(i ssa.Instruction) {
+				if mu, ok := i.(*ssa.MapUpdate); ok {
+					is := func(v ssa.Value) bool { return v == ssa.Value(flag) }
+					if core.Dominated(mu, core.TrueFact(is)) || core.Dominated(mu, core.FalseFact(is)) {
+						decides = true
+					}
+				}
+			})
+			if !decides {
+				continue
+			}
 			kept, iters := 0, 0
 			core.EnumPaths(rd, 3, 200000, func(pa core.Path) {
 				var idx []int
@@ -508,6 +565,7 @@ func c17r4(c *core.Ctx) {
 					}
 				}
 			})
+			delimiterFlagMeaning(c, rd, flag)
 			c.Check(kept == 0 && iters > 0, "delimiter-flag-per-item@"+fname(rd), flag.Pos(), "every iteration that stores a value re-assigns the delimiter flag",
 				"an iteration that stores a value leaves the 'previous item was a delimiter' flag as it was: once a list delimiter was seen, the fragments of every later long value are filed as list elements instead of being merged")
 		}
@@ -688,4 +746,169 @@ func cycleAvoiding(a, n ssa.Instruction) bool {
 		work = append(work, b.Succs...)
 	}
 	return false
+}
+
+// delimiterFlagMeaning: the flag is true exactly after an item with tag 0 and length 0, a value following such an item starts a new
+// list element, any other value with a tag already seen continues the previous fragment.
+func delimiterFlagMeaning(c *core.Ctx, rd *ssa.Function, flag *ssa.Phi) {
+	// tag and length variables: targets of the first two stream reads
+	var tagA, lenA ssa.Value
+	for _, b := range rd.Blocks {
+		for _, i := range b.Instrs {
+			if t, _, ok := isStreamRead(i); ok {
+				if a, isA := t.(*ssa.Alloc); isA {
+					if tagA == nil {
+						tagA = a
+					} else if lenA == nil && ssa.Value(a) != tagA {
+						lenA = a
+					}
+				}
+			}
+		}
+	}
+	if tagA == nil || lenA == nil {
+		c.Undecided("delimiter-flag-meaning@"+fname(rd), rd.Pos(), "tag / length variables not found")
+		return
+	}
+	isZeroTest := func(of ssa.Value) core.CondFact {
+		return core.CmpFact(func(x, y ssa.Value) (bool, bool) {
+			for _, pr := range [][2]ssa.Value{{x, y}, {y, x}} {
+				if u, ok := core.StripConv(pr[0]).(*ssa.UnOp); ok && u.X == of {
+					if k, isK := core.ConstInt(pr[1]); isK && k == 0 {
+						return true, false
+					}
+				}
+			}
+			return false, false
+		})
+	}
+	tagZero, lenZero := isZeroTest(tagA), isZeroTest(lenA)
+	// definition: every value that flows into the flag and can be true is  len == 0  computed where  tag == 0 , or true where both hold
+	okDef := true
+	seen := map[ssa.Value]bool{}
+	var walk func(v ssa.Value, from *ssa.BasicBlock)
+	walk = func(v ssa.Value, from *ssa.BasicBlock) {
+		if v == ssa.Value(flag) {
+			return
+		}
+		if ph, ok := v.(*ssa.Phi); ok {
+			if seen[ph] {
+				return
+			}
+			seen[ph] = true
+			for k, e := range ph.Edges {
+				walk(e, ph.Block().Preds[k])
+			}
+			return
+		}
+		if k, isK := core.ConstInt(v); isK {
+			if k == 0 {
+				return
+			}
+			last := from.Instrs[len(from.Instrs)-1]
+			if !core.Dominated(last, tagZero) || !core.Dominated(last, lenZero) {
+				okDef = false
+			}
+			return
+		}
+		bo, ok := v.(*ssa.BinOp)
+		if !ok || bo.Op != token.EQL {
+			okDef = false
+			return
+		}
+		isLenZero := func() bool {
+			for _, pr := range [][2]ssa.Value{{bo.X, bo.Y}, {bo.Y, bo.X}} {
+				if u, ok := core.StripConv(pr[0]).(*ssa.UnOp); ok && u.X == lenA {
+					if k, isK := core.ConstInt(pr[1]); isK && k == 0 {
+						return true
+					}
+				}
+			}
+			return false
+		}()
+		isTagZero := func() bool {
+			for _, pr := range [][2]ssa.Value{{bo.X, bo.Y}, {bo.Y, bo.X}} {
+				if u, ok := core.StripConv(pr[0]).(*ssa.UnOp); ok && u.X == tagA {
+					if k, isK := core.ConstInt(pr[1]); isK && k == 0 {
+						return true
+					}
+				}
+			}
+			return false
+		}()
+		switch {
+		case isLenZero:
+			if !core.Dominated(bo, tagZero) {
+				okDef = false
+			}
+		case isTagZero:
+			if !core.Dominated(bo, lenZero) {
+				okDef = false
+			}
+		default:
+			okDef = false
+		}
+	}
+	for k, e := range flag.Edges {
+		walk(e, flag.Block().Preds[k])
+	}
+	c.Check(okDef, "delimiter-flag-meaning/definition@"+fname(rd), flag.Pos(), "the flag is true only after an item with tag 0 and length 0", "the delimiter flag is not 'tag == 0 && length == 0' of the previous item: ordinary items are taken for list delimiters (or delimiters are not recognised)")
+	// use: new element on the flag's true branch, merge on its false branch
+	isFlag := func(v ssa.Value) bool { return v == ssa.Value(flag) }
+	okUse, n := true, 0
+	core.Instrs(rd, func(i ssa.Instruction) {
+		mu, ok := i.(*ssa.MapUpdate)
+		if !ok {
+			return
+		}
+		// what is stored: append(l, v) with l the looked-up list = new element; a one-bucket list holding append(l[0], v...) = merge
+		for _, s := range core.Sources(mu.Value) {
+			call, isC := s.(*ssa.Call)
+			if !isC {
+				continue
+			}
+			if b, isB := call.Call.Value.(*ssa.Builtin); !isB || b.Name() != "append" {
+				continue
+			}
+			fromLookup := core.AnySource(call.Call.Args[0], func(x ssa.Value) bool {
+				e, ok := x.(*ssa.Extract)
+				if !ok {
+					return false
+				}
+				_, isL := e.Tuple.(*ssa.Lookup)
+				return isL && e.Index == 0
+			})
+			if fromLookup {
+				n++
+				if !core.Dominated(mu, core.TrueFact(isFlag)) {
+					okUse = false
+				}
+			}
+		}
+		// merge: the stored list is a fresh one-element list
+		if sl, isSl := mu.Value.(*ssa.Slice); isSl {
+			if a, isA := sl.X.(*ssa.Alloc); isA {
+				for _, r := range *a.Referrers() {
+					if ia, ok := r.(*ssa.IndexAddr); ok {
+						for _, rr := range *ia.Referrers() {
+							if st, ok := rr.(*ssa.Store); ok {
+								if call, isC := st.Val.(*ssa.Call); isC {
+									if b, isB := call.Call.Value.(*ssa.Builtin); isB && b.Name() == "append" {
+										n++
+										if !core.Dominated(mu, core.FalseFact(isFlag)) {
+											okUse = false
+										}
+									}
+								}
+							}
+						}
+					}
+				}
+			}
+		}
+	})
+	if os.Getenv("HCSA_DEBUG") != "" {
+		fmt.Println("delimiter use: okUse", okUse, "n", n)
+	}
+	c.Check(okUse && n >= 2, "delimiter-flag-meaning/use@"+fname(rd), flag.Pos(), "a value after a delimiter starts a new element, any other repeated tag continues the fragment", "the decision between 'next list element' and 'next fragment of a long value' is inverted or missing: long values are split into list elements, list elements are glued together")
 }
